@@ -50,7 +50,7 @@ PROPS: dict[str, dict[str, Any]] = {
     },
     "C10": {
         "level": "exploration",
-        "sidecars": [],
+        "sidecars": ["contracts/c10.py"],
         "bounded": [{"script": "bounded/store_harness.py", "args": ["--mode", "c10"]}],
         "rule": "bounded stand-in, exhaustive in its bound: every stream of length <= 4 (thorough 5) over a pool of 6 spans (two traces; one id occurring "
                 "twice with different content; a child of the duplicated id; a span whose parent never arrives) x batch sizes {1,2,3,100}, plus every "
